@@ -195,3 +195,91 @@ pub fn explore(
     }
     Ok((count, capped))
 }
+
+/// Parallel version of `explore`: the same set of schedules (all with at most `bound`
+/// preemptions), explored by `workers` threads from a shared work list of choice prefixes.
+pub fn explore_par(
+    bound: usize,
+    max_schedules: usize,
+    workers: usize,
+    run: &(dyn Fn(usize, &[usize]) -> Result<Trace, String> + Sync),
+) -> Result<(usize, bool), String> {
+    use std::sync::atomic::{AtomicBool, AtomicUsize, Ordering};
+    let work: Mutex<Vec<Vec<usize>>> = Mutex::new(vec![Vec::new()]);
+    let active = AtomicUsize::new(0);
+    let count = AtomicUsize::new(0);
+    let capped = AtomicBool::new(false);
+    let error: Mutex<Option<String>> = Mutex::new(None);
+    std::thread::scope(|s| {
+        for wid in 0..workers.max(1) {
+            let (work, active, count, capped, error) = (&work, &active, &count, &capped, &error);
+            s.spawn(move || loop {
+                let job = {
+                    let mut w = work.lock().unwrap();
+                    let j = w.pop();
+                    if j.is_some() {
+                        active.fetch_add(1, Ordering::SeqCst);
+                    }
+                    j
+                };
+                let prefix = match job {
+                    Some(p) => p,
+                    None => {
+                        if active.load(Ordering::SeqCst) == 0 || error.lock().unwrap().is_some() {
+                            break;
+                        }
+                        std::thread::sleep(Duration::from_micros(200));
+                        continue;
+                    }
+                };
+                if error.lock().unwrap().is_some() {
+                    active.fetch_sub(1, Ordering::SeqCst);
+                    break;
+                }
+                if count.fetch_add(1, Ordering::SeqCst) >= max_schedules {
+                    count.fetch_sub(1, Ordering::SeqCst);
+                    capped.store(true, Ordering::SeqCst);
+                    work.lock().unwrap().clear();
+                    active.fetch_sub(1, Ordering::SeqCst);
+                    continue;
+                }
+                match run(wid, &prefix) {
+                    Err(e) => {
+                        *error.lock().unwrap() = Some(e);
+                    }
+                    Ok(tr) => {
+                        if let Some(d) = tr.diverged {
+                            *error.lock().unwrap() = Some(format!("replay diverged: {} (prefix {:?})", d, prefix));
+                        } else {
+                            let choices: Vec<usize> = tr.points.iter().map(|p| p.choice).collect();
+                            let mut children = Vec::new();
+                            for i in prefix.len()..tr.points.len() {
+                                let p = &tr.points[i];
+                                let mut cost = preemptions(&tr.points, i);
+                                if p.running_enabled {
+                                    cost += 1;
+                                }
+                                if cost > bound {
+                                    continue;
+                                }
+                                for alt in 1..p.enabled.len() {
+                                    let mut c = choices[..i].to_vec();
+                                    c.push(alt);
+                                    children.push(c);
+                                }
+                            }
+                            if !children.is_empty() && !capped.load(Ordering::SeqCst) {
+                                work.lock().unwrap().extend(children);
+                            }
+                        }
+                    }
+                }
+                active.fetch_sub(1, Ordering::SeqCst);
+            });
+        }
+    });
+    if let Some(e) = error.into_inner().unwrap() {
+        return Err(e);
+    }
+    Ok((count.load(std::sync::atomic::Ordering::SeqCst), capped.load(std::sync::atomic::Ordering::SeqCst)))
+}
